@@ -388,7 +388,7 @@ class Compiler:
             try:
                 with open_device(filepath, "wb") as f:
                     f.write(result)
-            except IOError as ex:
+            except (IOError, ValueError) as ex:
                 reports.error(
                     "io-error",
                     (ctx_start, ctx_end, f"Could not write to '{filepath}':\n{ex}")
